@@ -550,12 +550,12 @@ func (w *c17World) completedNow(o *chainkit.Outcome, d *decision) bool {
 func TestC17Interplay(t *testing.T) {
 	theT = t
 	col := ev.New("C17", "interplay",
-		"complete enumeration for n=2..5 stored keys x completing kind {setConfig, cheque, alphabetUpdate (replacement), innerRingCandidateRemove} x bystander kind {setConfig, cheque, innerRingCandidateRemove of the other candidate} x bystander opened {before, after} the first vote of the completing decision: the bystander gets one vote, the completing decision is voted to its threshold by distinct keys, then one more vote for the completed id is sent (and, for removals, the candidate registers again first: one vote must not remove it), then the bystander is voted to its threshold by the remaining keys; every invocation is judged by the ballot model, the read API is compared after every block; non-trivial = every case")
+		"complete enumeration for n=2..5 stored keys x completing kind {setConfig, cheque, alphabetUpdate (replacement), innerRingCandidateRemove, cheque whose payee is a contract that calls cheque again with the same arguments from its payment callback} x bystander kind {setConfig, cheque, innerRingCandidateRemove of the other candidate} x bystander opened {before, after} the first vote of the completing decision: the bystander gets one vote, the completing decision is voted to its threshold by distinct keys, then one more vote for the completed id is sent (and, for removals, the candidate registers again first: one vote must not remove it), then the bystander is voted to its threshold by the remaining keys; every invocation is judged by the ballot model, the read API is compared after every block; non-trivial = every case")
 	defer func() { col.Flush(true) }()
 	nshards, shard := envInt("VERIF_NSHARDS", 1), envInt("VERIF_SHARD_INDEX", 0)
 	idx := 0
 	for n := 2; n <= 5; n++ {
-		for _, kind := range []string{"setConfig", "cheque", "alphabetUpdate", "candidateRemove"} {
+		for _, kind := range []string{"setConfig", "cheque", "alphabetUpdate", "candidateRemove", "cheque-to-a-re-entering-contract"} {
 			for _, by := range []string{"setConfig", "cheque", "candidateRemove"} {
 				for _, before := range []bool{true, false} {
 					idx++
@@ -586,7 +586,24 @@ func TestC17Interplay(t *testing.T) {
 							}
 							return w.newDecision(k)
 						}
+						reenter := kind == "cheque-to-a-re-entering-contract"
+						kind := kind
+						if reenter {
+							kind = "cheque"
+						}
 						d, b := mk(kind, 0), mk(by, 1)
+						if reenter {
+							// the payee is a contract that, when paid, calls cheque again with the same arguments (once):
+							// the completing member's witness is still there, so that call is one more invocation by that key
+							probe := w.c.Deploy(chainkit.Probe("reenter", ""), nil)
+							d.payee = probe
+							d.args = []any{d.id, probe, d.amount, []byte("lock-reenter")}
+							d.desc += " to a contract that re-enters cheque"
+							w.payees = append(w.payees, probe)
+							if o := w.c.Invoke(nil, probe, "arm", w.neofs, "cheque", d.args, 1); !o.Halt {
+								panic(chainkit.HarnessError{Msg: "c17: arming the probe: " + o.Fault})
+							}
+						}
 						members := append([][]byte{}, w.m.alphabet...)
 						vote := func(dd *decision, mi int) {
 							v := w.prepare(dd, []neotest.SingleSigner{w.signerOf(members[mi])}, fmt.Sprintf("member %d", mi))
@@ -603,6 +620,16 @@ func TestC17Interplay(t *testing.T) {
 						}
 						for i := 1; i < thr; i++ {
 							vote(d, i)
+							if reenter && i == thr-1 {
+								// the nested invocation: a repeated vote of the completing key on a ballot that was
+								// closed before the payment - it opens a fresh one with that single vote
+								if n, ok := w.c.Call(nil, d.payee, "done").Int(); !ok || n != 1 {
+									fail("C17: the re-entering payee was called %d times by the completing vote, expected once", n)
+								}
+								w.m.vote(d.id, string(members[i]), int64(w.c.Height()))
+								h.Op("(the payee re-entered cheque once under member %d's witness)", i)
+								w.observe("after the re-entry")
+							}
 						}
 						if !h.Has("completed:" + kind) {
 							fail("C17: %s did not complete with %d distinct votes of %d keys", d.desc, thr, n)
